@@ -162,6 +162,11 @@ def search(ctx):
                     ctx.tried("nearby", (sname, lens, i))
                     start = {k: (v * float(rng.uniform(0.98, 1.02)) if k not in ('x', 'y') else v + float(rng.uniform(-0.02, 0.02))) for k, v in truth.items()}
                     start['alpha'] = min(0.99, max(0.51, start['alpha']))
+                    if i % 3 == 0:
+                        # a guess close to a bound of its own prior (the scaled limit is then close to 1) together with another
+                        # guess that is off by more than that margin: bounds must act on the parameter they belong to
+                        start['alpha'] = 0.985
+                        start['z'] = truth['z'] * float(rng.choice([0.97, 1.03]))
                     model2 = make_model(truth, start, th, origin=origin)
                     strat2 = S()
                     res2 = hp.fit(data, model2, strategy=strat2)
